@@ -134,6 +134,8 @@ def prepareStream (w : World) (s : BState) (n : Name) (objsDks : List (Obj × Li
   let config : List (Obj × CfgBlock) :=
     objsDks.map fun od =>
       (od.1, { data := (aget s.configValuesCache od.1).getD [], dataKeys := (aget s.configDescCache od.1).getD [] })
+  -- `self._config_values_cache[obj]` raises KeyError for an object that was never cached
+  if objsDks.any (fun od => !ahas s.configValuesCache od.1) then Res.fail s .keyError else
   -- ComposeDescriptor
   let uid := s.nextUid
   let s := { s with nextUid := s.nextUid + 1 }
@@ -146,7 +148,7 @@ def prepareStream (w : World) (s : BState) (n : Name) (objsDks : List (Obj × Li
     finish s uid dataKeys config [CEv.newStream n]
 where
   finish (s : BState) (uid : Nat) (dataKeys : List Key) (config : List (Obj × CfgBlock)) (pre : List CEv) : Res :=
-    let d : Desc := { uid := uid, keys := dataKeys, objs := objsDks, ext := externalKeys w objsDks }
+    let d : Desc := { uid := uid, keys := dataKeys, objs := objsDks, ext := externalKeys w objsDks, config := config }
     let s := { s with descriptors := aset s.descriptors n d }
     let ens := !ahas s.seq n
     let s :=
@@ -269,20 +271,30 @@ def monitor (w : World) (s : BState) (o : Obj) (n : Name) : Res :=
                          subs := subInc s.subs o }
           calls := [⟨o, "subscribe"⟩] }
 
+/-- `compose_event(...)` inside the monitor closure.  The composer is looked up in `_descriptors`
+    at call time (extracted fact `monitorUsesCurrentDescriptor`); otherwise it would be the one
+    captured when `monitor` ran. -/
+def monitorCompose (s : BState) (m : MonRec) (reading : Reading) : Res :=
+  if monitorUsesCurrentDescriptor then
+    match aget s.descriptors m.name with
+    | none => Res.fail s .keyError
+    | some d => composeEvent s m.name d.uid d.keys d.ext reading .monitor
+  else composeEvent s m.name m.descUid m.descKeys [] reading .monitor
+
 /-- one call of the closure `emit_event` created by `monitor(obj)` -/
 def monitorUpdate (s : BState) (o : Obj) (reading : Reading) : Res :=
   match aget s.monitors o with
   | none => Res.ok s     -- no closure exists for this object
   | some m =>
-    match aget s.seq m.name with
-    | none => Res.fail s .keyError
-    | some _ =>
-      let r := composeEvent s m.name m.descUid m.descKeys [] reading .monitor
-      match r.err with
-      | some _ => r
-      | none =>
-        -- commit happens between compose_event and emit_sync
-        if monitorCommits then { r with st := commit r.st m.name, cev := r.cev ++ [.commit m.name] } else r
+    match (monitorCompose s m reading).err with
+    | some _ => monitorCompose s m reading
+    | none =>
+      -- commit happens between compose_event and emit_sync
+      if monitorCommits then
+        { monitorCompose s m reading with
+            st := commit (monitorCompose s m reading).st m.name
+            cev := (monitorCompose s m reading).cev ++ [.commit m.name] }
+      else monitorCompose s m reading
 
 def unmonitor (s : BState) (o : Obj) : Res :=
   if !ahas s.monitors o then Res.fail s .illegalMessageSequence else
@@ -313,19 +325,22 @@ def recordInterruption (s : BState) (content : String) : Res :=
 
 /-! ### configure -/
 
+/-- second half of `configure`: re-prepare every stream whose descriptor contains `o`
+    (`for name in list(self._descriptors): ...`) -/
+def reprepareAll (w : World) (s : BState) (o : Obj) : Res :=
+  s.descriptors.foldl
+    (fun (r : Res) (nd : Name × Desc) =>
+      r.andThen fun s =>
+        match aget s.descriptors nd.1 with
+        | none => Res.fail s .keyError
+        | some d =>
+          if ahas d.objs o then
+            prepareStream w { s with descriptors := aerase s.descriptors nd.1 } nd.1 d.objs
+          else Res.ok s)
+    (Res.ok s)
+
 def configure (w : World) (s : BState) (o : Obj) : Res :=
-  (cacheReadConfig w s o).andThen fun s =>
-    -- `for name in list(self._descriptors)`
-    s.descriptors.foldl
-      (fun (r : Res) (nd : Name × Desc) =>
-        r.andThen fun s =>
-          match aget s.descriptors nd.1 with
-          | none => Res.fail s .keyError
-          | some d =>
-            if ahas d.objs o then
-              prepareStream w { s with descriptors := aerase s.descriptors nd.1 } nd.1 d.objs
-            else Res.ok s)
-      (Res.ok s)
+  (cacheReadConfig w s o).andThen fun s => reprepareAll w s o
 
 /-! ### declare_stream / collect -/
 
